@@ -573,6 +573,119 @@ def c07_spec(name):
 
 
 # ---------------------------------------------------------------------------
+# size ladder: 64 ... 700 atoms, two thread modes (spec/SymLarge.tla)
+# ---------------------------------------------------------------------------
+LARGE_INVS = ["LargeExact", "LargeImposesTransInv", "LargeImposesPermSym", "LargeIdempotent", "LargeFixesSymmetric",
+              "LargeCompactEqFull", "LargeThreadsAgree", "ConformsLargeEntries", "LargeAnnounced"]
+
+MC_LARGE = """---- MODULE MC_SymLarge ----
+EXTENDS SymLarge
+MCEvents == {%s}
+Alias == [id |-> ev.id, sys |-> ev.sys, mode |-> ev.mode, pc |-> pc, verdict |-> verdict]
+====
+"""
+
+
+def large_run(names, seed, nsample, threads):
+    import json
+    import subprocess
+    import sys
+
+    env = dict(os.environ, PYTHONWARNINGS="ignore", OMP_NUM_THREADS=str(threads))
+    p = subprocess.run([sys.executable, "-m", "harness.c07_large", json.dumps(dict(seed=seed, names=names, nsample=nsample))],
+                       cwd=tlcmod.VERIF, env=env, stdout=subprocess.PIPE, stderr=subprocess.PIPE, timeout=1500)
+    for line in p.stdout.decode(errors="replace").splitlines():
+        if line.startswith("C07LARGE "):
+            return json.loads(line[9:])
+    raise tlcmod.MachineryError("size-ladder process (threads=%s) failed: %s" % (threads, p.stderr.decode(errors="replace")[-1500:]))
+
+
+def res_class(v):
+    return "zero" if v <= R.TOL else "small" if v <= 1e-6 else "large"
+
+
+def run_large(ctx):
+    from concurrent.futures import ThreadPoolExecutor
+
+    names = ["sc444", "sc666", "ab555", "ab666"] if ctx.quick else \
+        ["sc444", "sc666", "ab555", "ab666", "sc777", "sc888", "ab777", "naclF333"]
+    nsample = 40 if ctx.quick else 120
+    try:
+        many = max(4, int(os.environ.get("OMP_NUM_THREADS", "4") or 4))
+    except ValueError:
+        many = 4
+    with ThreadPoolExecutor(2) as ex:
+        fm = ex.submit(large_run, names, ctx.seed, nsample, many)
+        f1 = ex.submit(large_run, names, ctx.seed, nsample, 1)
+        rm, r1 = fm.result(), f1.result()
+    if not rm["use_openmp"]:
+        ctx.assumptions.append("size ladder: the extension was built without OpenMP; both thread modes are serial")
+    if len(rm["events"]) != len(r1["events"]):
+        raise tlcmod.MachineryError("size-ladder runs disagree in length")
+    events, worst = [], 0.0
+    for a, b in zip(rm["events"], r1["events"]):
+        for mode, e in (("threads%d" % many, a), ("threads1", b)):
+            if "error" in e:
+                ctx.violation("large:raised", "phonopy raised on a large supercell: %s" % e["error"],
+                              dict(system=e["sys"], ns=e["ns"], route=e["route"], level=e["level"], kind=e["kind"], mode=mode))
+        if "error" in a or "error" in b:
+            continue
+        same = a["digest"] == b["digest"]
+        if not same:  # tolerate a legitimate reordering of floating sums, not a different result
+            scale = max(1.0, max(abs(s["x"]) for s in a["sample"]))
+            same = all(abs(float.fromhex(x["raw"]) - float.fromhex(y["raw"])) <= 1e-12 * scale
+                       for x, y in zip(a["sample"], b["sample"])) and \
+                all(res_class(a["facts"][k]) == res_class(b["facts"][k]) for k in ("rowsum", "colsum", "asym", "again", "moved", "vsfull"))
+        for mode, e in (("threads%d" % many, a), ("threads1", b)):
+            f = e["facts"]
+            worst = max(worst, f["sample_resid"], f["rowsum"], f["colsum"], f["again"], f["vsfull"]) if mode == "threads1" else worst
+            events.append(dict(id=len(events), sys=e["sys"], mode=mode, ns=e["ns"], route=e["route"], level=e["level"],
+                               kind=e["kind"], den=e["den"],
+                               facts=dict(exact=bool(f["finite"] and f["sample_resid"] <= R.TOL), rowsum=res_class(f["rowsum"]),
+                                          colsum=res_class(f["colsum"]), asym=res_class(f["asym"]), again=res_class(f["again"]),
+                                          moved=res_class(f["moved"]), vsfull=res_class(f["vsfull"]), threads=bool(same)),
+                               sample=[{k: s_[k] for k in ("i", "j", "k", "l", "x", "xt", "cj", "ri", "cit", "rjt", "t", "tt", "out", "outt")}
+                                       for s_ in e["sample"]],
+                               residuals={k: f[k] for k in ("rowsum", "colsum", "asym", "again", "moved", "vsfull", "sample_resid")}))
+            ctx.count(("large", e["sys"], mode, e["route"], e["level"], e["kind"]))
+    ctx.traces += len(events)
+    ctx.extra["large_events"] = len(events)
+    ctx.extra["large_sizes"] = sorted(set(e["ns"] for e in events))
+    ctx.extra["large_thread_modes"] = sorted(set(e["mode"] for e in events))
+    ctx.extra["large_sampled_entries"] = sum(len(e["sample"]) for e in events)
+    ctx.extra["large_worst_residual_serial"] = worst
+    lits = [to_tla({k: v for k, v in e.items() if k != "residuals"}) for e in events]
+    cfg = ("INIT LInit\nNEXT LNext\nCONSTANTS\n Events <- MCEvents\nCHECK_DEADLOCK FALSE\nALIAS Alias\n"
+           + "".join("INVARIANT %s\n" % i for i in LARGE_INVS))
+    res = ctx.tlc("MC_SymLarge", cfg_text=cfg, extra_files={"MC_SymLarge.tla": MC_LARGE % ",\n".join(lits)},
+                  requirement=False, workers=WORKERS, extra_args=("-continue",), keep=True, timeout=1500)
+    seen = {}
+    for inv, tr in res.violations:
+        st = tr[-1][1] if tr else {}
+        for name in (set(st.get("verdict", ())) or {inv}):
+            seen.setdefault(name, st)
+    tlcmod.cleanup(res)
+    for name, st in sorted(seen.items()):
+        e = events[st["id"]] if "id" in st else {}
+        det = dict(invariant=name, system=e.get("sys"), spec=c07_large_spec(e.get("sys")), ns=e.get("ns"), mode=e.get("mode"),
+                   route=e.get("route"), level=e.get("level"), kind=e.get("kind"), seed=ctx.seed, facts=e.get("facts"),
+                   residuals=e.get("residuals"), sample_head=(e.get("sample") or [])[:6])
+        if name == "LargeAnnounced":
+            raise tlcmod.MachineryError("size ladder: recorded ingredients inconsistent: %s" % det)
+        what = ("C07 %s: the returned entries are not the orthogonal projector's" % name if name.startswith("Conforms")
+                else "C07 %s fails on a large supercell (%s atoms, %s)" % (name, e.get("ns"), e.get("mode")))
+        ctx.violation("large:" + name, what, det)
+
+
+def c07_large_spec(name):
+    from harness import c07_large
+    try:
+        return {k: v for k, v in c07_large.spec_of(name).items()}
+    except KeyError:
+        return None
+
+
+# ---------------------------------------------------------------------------
 # ./check C07 --replay <file>: re-run exactly the recorded failing case
 # ---------------------------------------------------------------------------
 def run_replay(ctx):
@@ -692,6 +805,15 @@ def run_all(ctx):
     t0 = time.time()
     run_process(ctx, variant)
     ctx.extra["t_process_s"] = round(time.time() - t0, 1)
+
+    # --- size ladder (64 ... 700 atoms), default thread count and one thread
+    t0 = time.time()
+    run_large(ctx)
+    ctx.extra["t_large_s"] = round(time.time() - t0, 1)
+    ctx.assumptions.append("Size ladder: arrays of 64-700 atoms are not projected entry by entry; TLC judges whole-array facts "
+                           "measured by the harness as residual classes (zero = <= 1e-9 relative; observed <= 2e-13) and, exactly, "
+                           "a sample of entries (self blocks of rows spread over the array, off-diagonal blocks with their "
+                           "partners) against the integer ingredients of the definition.")
     ctx.extra["cpu_session_s"] = round(sum(os.times()[:4]) - cpu0, 1)
     cpu0 = sum(os.times()[:4])
 
